@@ -23,6 +23,8 @@ def build_repo(guard=False, opt='-O2'):
     """S0: rebuild /repo's working tree; returns the directory to put on sys.path."""
     sys.path.insert(0, os.path.join(VERIF, 'tools'))
     import buildrepo
+    pre = os.environ.get('VERIF_PREBUILT_GUARD' if guard else 'VERIF_PREBUILT')
+    if pre and opt == '-O2': return pre          # development aid (tools/covaudit.sh): an instrumented build made beforehand from the same tree
     d = scratch_dir()
     buildrepo.build(d, repo=REPO, guard=guard, opt=opt)
     return d
